@@ -27,6 +27,7 @@ from harness import indep_usm as U
 from harness import opslib as O
 from harness import refagent as RA
 from harness import usmlib as UL
+from harness import v3wire as V3W
 from harness import walklib as W
 from harness.common import Result, run_driver
 
@@ -181,6 +182,7 @@ def run(ctx):
     hangs = []
     unit(ctx, res, reqs, impls, hangs)
     mitm(ctx, res, hangs)
+    V3W.run(ctx, res, reqs, impls, authentic)  # the datagram itself through the model: glue + USM
     # a hang is C20's subject: it is attributed to the recorded x690 finding only when the x690
     # mirror in Lean predicts that very datagram to loop (iteration budget exhausted)
     predicted = BL.loop_predicted([dg for _c, dg in hangs]) if ctx.driver_ok and hangs else {}
@@ -191,6 +193,10 @@ def run(ctx):
             res.case(suite, case)
             model = UL.canon_model_incoming(ans)
             if got[0] == "hang":
+                continue
+            if suite == "wire-incoming":
+                if not V3W.agree(case, got, model):
+                    res.disagree(suite, case, got, model)
                 continue
             if model != got:
                 res.disagree(suite, case, got, model)
